@@ -514,9 +514,13 @@ def compare_run(model_fields, res, first_runtime_only=True, mask_clock=False):
         if mstatus in ('noresult:fuel', 'noresult:timeout', 'noresult:memory', 'noresult:stack') and res['timeout']:
             return None
         return 'model has no result (%s); implementation status %s' % (mstatus, res['status'])
+    mitems_l = mitems.split(' ') if mitems else []
+    if mitems_l == ['C'] and res['timeout']:
+        # model: the Go runtime dies of stack exhaustion printing a self-containing value; growing a goroutine stack
+        # to its 1 GB limit can outlast the time limit on a loaded machine: still on its way to the predicted crash
+        return None
     if res['timeout']:
         return 'implementation timed out; model status ' + mstatus
-    mitems_l = mitems.split(' ') if mitems else []
     if mitems_l == ['C']:
         # model: the Go runtime dies printing a self-containing value
         if res['status'] == 2 and PANIC_RX.search(res['stderr']) and model_stdout(mevents) == res['stdout']:
